@@ -68,11 +68,11 @@ func checkPoolFormulas(c *core.Ctx, rule string) {
 		}
 		tupleHook := func(in *ssa.Call) ([]interface{}, bool) {
 			h := in.Call.StaticCallee()
-			if h == nil || h.Name() != "Reserves" || !strings.HasSuffix(core.PkgOf(h), "/swap") || len(in.Call.Args) != 1 || !ofRecv(in.Call.Args[0]) {
+			if h == nil || h.Name() != "Reserves" || !strings.HasSuffix(core.PkgOf(h), "/swap") || len(core.NormCall(&in.Call).Args) != 1 || !ofRecv(core.NormCall(&in.Call).Args[0]) {
 				return nil, false
 			}
 			// only the pair's own reserves (not those of p.reverse() or of a scratch copy)
-			if core.DependsOn(in.Call.Args[0], func(x ssa.Value) bool { _, isCall := x.(*ssa.Call); return isCall }) {
+			if core.DependsOn(core.NormCall(&in.Call).Args[0], func(x ssa.Value) bool { _, isCall := x.(*ssa.Call); return isCall }) {
 				return nil, false
 			}
 			return []interface{}{&bobj{val: r0, param: -1}, &bobj{val: r1, param: -1}}, true
